@@ -536,6 +536,16 @@ func readSourceEnv(w *World, root *ssa.Function, v ssa.Value, env *strEnv, depth
 			}
 		case *ssa.Call:
 			n := calleeName(t)
+			if n == "strings.Cut" && len(t.Call.Args) == 2 && (x.Index == 0 || x.Index == 1) {
+				// before, after, found := strings.Cut(v, sep): the two parts of a value holding the separator once
+				if sep, ok := constStr(t.Call.Args[1]); ok {
+					if s, ok := readSourceEnv(w, root, t.Call.Args[0], env, depth+1); ok && s.part < 0 {
+						s.part, s.sep = x.Index, sep
+						return s, true
+					}
+				}
+				return nil, false
+			}
 			if x.Index == 0 && strings.HasPrefix(n, "strconv.") && len(t.Call.Args) >= 1 {
 				if s, ok := readSourceEnv(w, root, t.Call.Args[0], env, depth+1); ok {
 					s.conv = strings.TrimPrefix(n, "strconv.")
@@ -679,6 +689,41 @@ func legacyReadsSSA(c *Ctx, p *packages.Package, fn *ssa.Function, attrs *types.
 					if s, ok := readSource(w, fn, sp.Call.Args[0], 0); ok {
 						r.lenChecks[s.key] = n
 					}
+				}
+			}
+		}
+	}
+	// the Cut form of "exactly two parts": the found flag is tested and the second part is tested for a further
+	// separator
+	for _, tf := range w.Tree(fn) {
+		for _, call := range callsTo(tf, "strings.Cut") {
+			cv, ok := call.(*ssa.Call)
+			if !ok || len(cv.Call.Args) != 2 {
+				continue
+			}
+			sep, okSep := strConst(cv.Call.Args[1])
+			found, after := extractOfV(cv, 2), extractOfV(cv, 1)
+			if !okSep || found == nil || after == nil {
+				continue
+			}
+			tested := false
+			for _, u := range *found.Referrers() {
+				switch u.(type) {
+				case *ssa.If, *ssa.UnOp, *ssa.Phi, *ssa.BinOp:
+					tested = true
+				}
+			}
+			again := false
+			for _, c2 := range callsTo(tf, "strings.Contains") {
+				if a := c2.Common().Args; len(a) == 2 && a[0] == after {
+					if s2, ok := strConst(a[1]); ok && s2 == sep {
+						again = true
+					}
+				}
+			}
+			if tested && again {
+				if s, ok := readSource(w, fn, cv.Call.Args[0], 0); ok {
+					r.lenChecks[s.key] = 2
 				}
 			}
 		}
